@@ -188,7 +188,22 @@ def r4(ctx, facts):
                         fed = any(r[0] == "param" and r[1] == 1 and r[2][:1] == ("keys",) for r in ro)
             ctx.ob("C06-R4", "%s passes the mask iterator's item to J::get" % b.path, ok and fed, b.loc(bb),
                    "" if ok and fed else "index handed to J::get is not the closure's item parameter (%r) or the closure is not driven by the key iterator (%s)" % (io, fed))
-    ctx.floor("C06-R4", "iterator closures calling J::get", n, 3)
+    # the same plumbing written without a closure: `match self.keys.next() { Some(idx) => J::get(&mut self.values, idx) .. }`
+    for b in facts.bodies:
+        if b.kind == "Closure" or not b.self_ty or base_ty(b.self_ty) not in ("join::JoinIter", "join::lend_join::JoinLendIter") or b.name not in ("next", "for_each"):
+            continue
+        for bb, t in b.calls():
+            if norm(t["callee"].get("path")) != "JOIN::get":
+                continue
+            n += 1
+            io = b.arg_origin(bb, 1)
+            ok = io[0] == "call" and io[2][:1] == ("as Some",) and b.term(io[1])["callee"].get("name") == "next" and \
+                any(r[0] == "param" and r[1] == 1 and r[2][:1] == ("keys",) for r in b.roots(b.arg_origin(io[1], 0)))
+            vo = b.arg_origin(bb, 0)
+            okv = vo[0] == "param" and vo[1] == 1 and vo[2][:1] == ("values",)
+            ctx.ob("C06-R4", "%s passes the mask iterator's item to J::get" % b.path, ok and okv, b.loc(bb),
+                   "" if ok and okv else "index handed to J::get is not the item of self.keys.next() (%r) or the values are not self.values (%r)" % (io, vo))
+    ctx.floor("C06-R4", "iterator sites calling J::get", n, 3)
     # tuples
     nt = 0
     for st, m in join_impls(facts).items():
